@@ -93,6 +93,9 @@ type opDef struct {
 	// (oracle 3) is asserted, with relative tolerance relTol3.
 	noRef   bool
 	relTol3 float64
+	// enumOnly: not drawn by the random sub-checks (TriDense.Copy has several
+	// reported defects; keeping it in one sub keeps the known-finding keys few).
+	enumOnly bool
 	// basicState is the receiver state of the all-basic run of oracle 3 (default
 	// stZero; stSized for operations that need a sized receiver).
 	basicState int
@@ -607,7 +610,7 @@ func init() {
 		}})
 
 	// ================= TriDense =================
-	addOp(&opDef{name: "TriCopy", recv: rTri, nvars: 3, params: []param{mp(0, 1)}, res: resVars(2, 2), sizedOnly: true, nP: 2, enumP: true,
+	addOp(&opDef{name: "TriCopy", recv: rTri, nvars: 3, params: []param{mp(0, 1)}, res: resVars(2, 2), sizedOnly: true, nP: 2, enumP: true, enumOnly: true,
 		upper: func(x *ctx) bool { return x.p == 0 },
 		run:   func(x *ctx) { r, c := x.recv.t.Copy(x.args[0]); x.ints = []int{r, c} },
 		ref: func(x *ctx) (result, bool) {
